@@ -91,7 +91,7 @@ PROPS = {
     },
     'C14': {
         'level': 'proof',
-        'explanation': 'Table.sort_by.key_fn (extracted nested function) returns (placement flag, value) with the flag of the statement; the lemma sort-none-placement shows that flag puts None last/first by na_last for both directions and that None is never compared with a value. Permutation / stability / lexicographic order rest on the trusted stable-sort contract and are cross-examined by the bounded stand-in; Vector.sort_by is bounded plus the same key lemma.',
+        'explanation': "Table.sort_by on the real text, for one key vector (quick tier) and two key vectors with independent directions (thorough tier), any number of rows, either None placement: under the trusted stable-sort contract of list.sort (the result is a permutation; no later element compares less than an earlier one under the key order, the other way round for reverse=True; elements whose keys compare less neither way keep their order, for reverse=True too) the key function with its flipped None flag, the per-key reverse flag, the last-key-first loop and the rebuilding of the columns give, for two arbitrary output positions P < Q: distinct source rows (with the row count unchanged: a permutation), every column holding the source rows' cells (cells kept together), names kept, the later row never having to come strictly before the earlier one in the lexicographic key order (each key in its direction, None placed by na_last whatever the direction), and ties in original order (exit assertion sb_exit; the two-key case is the composition argument for successive stable sorts, done by the solver from the two sort contracts). Vector.sort_by is proved the same way through sorted() (exit assertion vsb_exit: permutation, order, None placement, stability, name and dtype kept). Table.sort_by.key_fn has its own contract (flag of the statement) and the lemma sort-none-placement. Idempotence (sorting a sorted table changes nothing), three keys, keys given by name and input-not-modified are covered by pyframe (C01) and the bounded stand-in.",
         'trusted': ['list.sort / sorted: stable, reverse=True keeps the order of equal keys (validated each run)'],
     },
     'C15': {
